@@ -113,7 +113,8 @@ def unary_op(o: Any, names=None) -> dict:
                 "fixed": tree(fixed, names),
                 "p": pred(binary.predicate),
                 "min": cols(binary.min_columns),
-                "max": "none" if binary.max_columns is None else cols(binary.max_columns),
+                "max": [] if binary.max_columns is None else cols(binary.max_columns),
+                "hasmax": binary.max_columns is not None,
                 "lhs": bool(lhs),
             }
     raise TypeError(f"cannot project operation {o!r}")
@@ -127,7 +128,9 @@ def binary_op(o: Any) -> dict:
             return {
                 "o": "join",
                 "p": pred(predicate),
-                "common": cols(mn) if mx == mn else "unresolved",
+                "common": cols(mn) if mx == mn else [],
+                # a join node whose common columns were never resolved (min_columns != max_columns) is ill-formed
+                "unres": mx != mn,
             }
         case IgnoreOne(ignore_lhs=il):
             return {"o": "ignore", "lhs": bool(il)}
